@@ -56,6 +56,11 @@ type Overlay struct {
 	Find    string `json:"find"`    // exact text to be replaced (must occur exactly Count times, default 1)
 	Replace string `json:"replace"` // replacement
 	Count   int    `json:"count,omitempty"`
+	// position-based form (generated survey mutants): replace Length bytes at byte Offset; when Find
+	// is given it must be the text at that position
+	Offset int `json:"offset,omitempty"`
+	Length int `json:"length,omitempty"`
+	AtPos  bool `json:"at_pos,omitempty"`
 }
 
 type Mutant struct {
@@ -90,6 +95,13 @@ func loadProgram(repo string, overlays []Overlay, tests bool) (*Program, error) 
 				return nil, fmt.Errorf("overlay: %v", err)
 			}
 			src = b
+		}
+		if o.AtPos {
+			if o.Offset < 0 || o.Offset+o.Length > len(src) || (o.Find != "" && string(src[o.Offset:o.Offset+o.Length]) != o.Find) {
+				return nil, fmt.Errorf("overlay: %s: text at offset %d is not %q", o.File, o.Offset, o.Find)
+			}
+			ov[p] = []byte(string(src[:o.Offset]) + o.Replace + string(src[o.Offset+o.Length:]))
+			continue
 		}
 		want := o.Count
 		if want == 0 {
